@@ -59,7 +59,7 @@ def basis_contract(ck):
     """Oracle contract for LAPACK's Q: orthonormal columns spanning 1, t, t^2."""
     from speckit.core import _build_Q
     worst = 0.0
-    for L in [2, 3, 5, 16, 33, 64, 257, 1000]:
+    for L in [2, 3, 5, 16, 33, 64, 257, 1000, 1023, 1024, 1025, 2048, 4097, 20000] + [ck.rng.randint(1024, 60000) for _ in range(3)]:
         for order in (1, 2):
             if L < order + 1:
                 continue
